@@ -386,7 +386,12 @@ size_t varintAdaptiveEncodeWith(uint8_t *dst, const uint64_t *values,
 
         for (size_t i = 0; i < count; i++) {
             if (values[i] < VARINT_BITMAP_MAX_VALUE) {
-                varintBitmapAdd(vb, (uint16_t)values[i]);
+                if (!varintBitmapAdd(vb, (uint16_t)values[i]) &&
+                    !varintBitmapContains(vb, (uint16_t)values[i])) {
+                    /* Not a duplicate: the container could not grow */
+                    varintBitmapFree(vb);
+                    return 0;
+                }
             }
         }
 
@@ -405,6 +410,12 @@ size_t varintAdaptiveEncodeWith(uint8_t *dst, const uint64_t *values,
         encodedSize = offset - 1; /* Subtract initial header byte */
         break;
     }
+    }
+
+    if (encodedSize == 0 && count > 0) {
+        /* The selected encoder failed (it could not allocate its working
+         * memory): do not return a bare header byte as if it had succeeded */
+        return 0;
     }
 
     /* Fill metadata if requested */
